@@ -22,7 +22,7 @@ partial def Schema.ofJson (j : Json) : Except String Schema := do
   if hasKey j "default" then throw "default outside a property"
   if let some x := optField j "$ref" then
     let s ← x.getStr?
-    return .ref ((s.drop "#/definitions/".length).toString)
+    return .ref (refName s)
   -- precedence of `_convert_field_to_schema_code_internal`: multi-field keywords, enum, type
   if let some x := optField j "allOf" then return .allOf (← subs x)
   if let some x := optField j "anyOf" then return .anyOf (← subs x)
@@ -108,7 +108,7 @@ partial def Schema.toJson : Schema → Json
         Json.arr #[Json.str n, sj]).toArray),
       ("additionalProperties", Json.bool addl)]
       ++ optKV "required" (fun (r : List String) => Json.arr (r.map Json.str).toArray) req)
-  | .ref n => Json.mkObj [("$ref", Json.str ("#/definitions/" ++ n))]
+  | .ref n => Json.mkObj [("$ref", Json.str (refOf n))]
   | .allOf ss => Json.mkObj [("allOf", Json.arr (ss.map Schema.toJson).toArray)]
   | .anyOf ss => Json.mkObj [("anyOf", Json.arr (ss.map Schema.toJson).toArray)]
   | .oneOf ss => Json.mkObj [("oneOf", Json.arr (ss.map Schema.toJson).toArray)]
@@ -216,6 +216,7 @@ def run (j : Json) : Except String Json := do
     ("phase", Json.str phase),
     ("crashes", strs crash),
     ("refsOrdered", Json.bool ordered),
+    ("refs", strs ((defs.map fun (_, d) => refsOf d).flatten ++ refsOf s)),
     ("sites", Json.arr (sites.map siteJson).toArray),
     ("unfaithful", strs (unfaithful.map (·.site))),
     ("issues", strs (topIssues s)),
